@@ -107,6 +107,8 @@ def build(ctx):
             ctx.unit(f"global[{m},{dt}]", lambda m=m, dt=dt: unit_global(ctx, m, dt))
     # the arrays handed to PanopticaResult are the matched pair's: relabelling must keep both foregrounds (C04), regenerated here
     include_stage(ctx, "C04")
+    # which empty-side scenario value is used: the handler classes, and the early exit that hands the two arrays over (C08), regenerated here
+    include_stage(ctx, "C08")
     ctx.add_bounded("c13-enum", "c13.bounded")
 
 
